@@ -59,6 +59,13 @@ def rec(a, b=1, k=2, *more):
     return out if isinstance(out, (pd.Series, np.ndarray)) else np.full(N, float(out))
 
 
+kk = 7.0  # module-level bindings that a function-local binding of the same name must shadow (check_e2e)
+
+
+def rec2(a, b=0):
+    return a * -1.0 + b
+
+
 def namespace(df):
     return {"rec": rec, "np": np, "I": (lambda v: v), "x": df["x"], "z": df["z"], "True": True, "code": df["code"], "flag": df["flag"], "nn": None, "zero": 0, "empty": ""}
 
@@ -548,6 +555,20 @@ def check_e2e(case, acc):
                 continue
             if got.shape != (len(fr), 4) or not same(wanted(fr, k1, k2), got):
                 problems.append(("value", "value-other", f"evaluate_new_data on {what} (step {step + 1}, design built with k1={k1}): a column is not the value of its call on that frame"))
+    # a name bound in the calling function and, to something else, at module level: the function's binding is the nearer one
+    kk = 3.0  # noqa: F841
+
+    def rec2(a, b=0):  # noqa: F841  (shadows the module-level rec2)
+        return a * 1.0 + b * 1000.0
+
+    for text, want in (("I(x * kk)", df["x"].to_numpy() * 3.0), ("rec2(x, b=kk)", df["x"].to_numpy() + 3000.0), ("I(rec2(x) + kk > 4)", (df["x"].to_numpy() + 3.0 > 4).astype(float))):
+        acc.calls += 1
+        try:
+            dml = design_matrices(f"y ~ 0 + {text}", df)
+            if not same(want, np.asarray(dml.common.design_matrix, dtype=float)[:, 0]):
+                problems.append(("value", "value-other", f"'{text}' called from a function that binds kk / rec2 locally (module level binds them to other objects): not the value with the local bindings"))
+        except Exception as ex:
+            problems.append(("value", "rejected", f"'{text}' raised {type(ex).__name__}: {ex}"))
     # arrays of the caller inside operators: used, never overwritten (also through parentheses and pass-through calls)
     warr = np.array([0.5, 1.5, -2.0, 4.0, 3.0, 0.25])
     w0 = warr.copy()
